@@ -699,6 +699,99 @@ def matrix_overlap(fi, wtext, X, lookup):
     return True, 'integer membership matrix, (M M^T)[i, j] = |c_i & c_j|', md
 
 
+def grown_tree(fi):
+    """The spanning tree built by hand.  Recognised as Prim's algorithm - hence a maximum-weight spanning tree, and any of those is a
+    junction tree of a chordal graph - when
+        H.add_nodes_from(X); P = X[:1]; R = X[1:]
+        while R:  (a, b) = max(product(P, R), key = |set(.) & set(.)|);  H.add_edge(a, b, ..);  P.append(b);  R.remove(b)
+    Recognised as NOT one when every clique X[k] is attached, in list order, to the best of the earlier cliques X[:k]: the choice is not
+    over the whole cut between placed and unplaced cliques.  -> (ok, why, node) or None."""
+    rets = [r for r in ast.walk(fi.node) if isinstance(r, ast.Return) and isinstance(r.value, ast.Tuple) and r.value.elts and isinstance(r.value.elts[0], ast.Name)]
+    if not rets:
+        return None
+    H = rets[-1].value.elts[0].id
+    adds = [c for c in ast.walk(fi.node) if isinstance(c, ast.Call) and isinstance(c.func, ast.Attribute) and c.func.attr == 'add_edge' and U(c.func.value) == H
+            and len(c.args) >= 2 and all(isinstance(a, ast.Name) for a in c.args[:2])]
+    nodes = [U(c.args[0]) for c in ast.walk(fi.node) if isinstance(c, ast.Call) and isinstance(c.func, ast.Attribute) and c.func.attr == 'add_nodes_from'
+             and U(c.func.value) == H and len(c.args) == 1]
+    if len(adds) != 1 or len(nodes) != 1:
+        return None
+    X = nodes[0]
+    add = adds[0]
+    ends = {a.id for a in add.args[:2]}
+    helpers = {d.name: d for d in ast.walk(fi.node) if isinstance(d, ast.FunctionDef) and d is not fi.node}
+
+    def is_overlap_key(k, pair_var=None):
+        # lambda e: overlap(*e) | overlap(e[0], e[1]) | len(set(e[0]) & set(e[1]))      (overlap a local helper computing the intersection size)
+        if isinstance(k, ast.Name) and k.id in helpers:
+            d = helpers[k.id]
+            if len(d.args.args) == 1 and len(d.body) == 1 and isinstance(d.body[0], ast.Return):
+                k = ast.Lambda(args=d.args, body=d.body[0].value)
+        if not (isinstance(k, ast.Lambda) and len(k.args.args) == 1):
+            return False
+        e = k.args.args[0].arg
+        t = U(k.body).replace(' ', '')
+        inter = ('len(set(%s[0])&set(%s[1]))' % (e, e), 'len(set(%s[1])&set(%s[0]))' % (e, e))
+        if t in inter:
+            return True
+        m = re.fullmatch(r'(\w+)\(\*%s\)' % e, t) or re.fullmatch(r'(\w+)\(%s\[0\],%s\[1\]\)' % (e, e), t)
+        if m and m.group(1) in helpers:
+            d = helpers[m.group(1)]
+            if len(d.args.args) == 2 and len(d.body) == 1 and isinstance(d.body[0], ast.Return):
+                a, b = [x.arg for x in d.args.args]
+                return U(d.body[0].value).replace(' ', '') in ('len(set(%s)&set(%s))' % (a, b), 'len(set(%s)&set(%s))' % (b, a))
+        return False
+    loop = None
+    n = add
+    while getattr(n, '_parent', None) is not None:
+        n = n._parent
+        if isinstance(n, (ast.While, ast.For)):
+            loop = n
+            break
+    if loop is None:
+        for lp in ast.walk(fi.node):
+            if isinstance(lp, (ast.While, ast.For)) and any(x is add for x in ast.walk(lp)):
+                loop = lp
+    if loop is None:
+        return None
+    inits = {a.targets[0].id: a.value for a in ast.walk(fi.node) if isinstance(a, ast.Assign) and len(a.targets) == 1 and isinstance(a.targets[0], ast.Name)
+             and not any(a is x for x in ast.walk(loop))}
+    if isinstance(loop, ast.While):
+        R = U(loop.test)
+        m = re.fullmatch(r'len\((\w+)\)>0', R.replace(' ', ''))
+        R = m.group(1) if m else R
+        picks = [a for a in loop.body if isinstance(a, ast.Assign) and len(a.targets) == 1 and isinstance(a.targets[0], ast.Tuple) and len(a.targets[0].elts) == 2
+                 and isinstance(a.value, ast.Call) and U(a.value.func) == 'max' and len(a.value.args) == 1]
+        if len(picks) != 1:
+            return None
+        pk = picks[0]
+        a_, b_ = [U(x) for x in pk.targets[0].elts]
+        src = pk.value.args[0]
+        key = next((k.value for k in pk.value.keywords if k.arg == 'key'), None)
+        if not (isinstance(src, ast.Call) and U(src.func) in ('itertools.product', 'product') and len(src.args) == 2 and U(src.args[1]) == R):
+            return None
+        P = U(src.args[0])
+        moved = any(isinstance(c, ast.Call) and U(c.func) == P + '.append' and len(c.args) == 1 and U(c.args[0]) == b_ for c in ast.walk(loop)) and \
+            any(isinstance(c, ast.Call) and U(c.func) == R + '.remove' and len(c.args) == 1 and U(c.args[0]) == b_ for c in ast.walk(loop))
+        start = U(inits.get(P)).replace(' ', '') == '%s[:1]' % X and U(inits.get(R)).replace(' ', '') == '%s[1:]' % X if P in inits and R in inits else False
+        if not (moved and start and ends == {a_, b_} and key is not None):
+            return None
+        if not is_overlap_key(key):
+            return None
+        return True, "Prim's algorithm: the heaviest edge across the cut (placed, unplaced) is added until every clique of `%s` is placed" % X, loop
+    if isinstance(loop, ast.For) and isinstance(loop.target, ast.Name):
+        k = loop.target.id
+        if re.fullmatch(r'range\(1,len\(%s\)\)' % re.escape(X), U(loop.iter).replace(' ', '')):
+            defs = {a.targets[0].id: a.value for a in loop.body if isinstance(a, ast.Assign) and len(a.targets) == 1 and isinstance(a.targets[0], ast.Name)}
+            new = [n_ for n_, v in defs.items() if U(v).replace(' ', '') == '%s[%s]' % (X, k)]
+            best = [n_ for n_, v in defs.items() if isinstance(v, ast.Call) and U(v.func) == 'max' and len(v.args) == 1 and U(v.args[0]).replace(' ', '') == '%s[:%s]' % (X, k)]
+            if len(new) == 1 and len(best) == 1 and ends == {new[0], best[0]}:
+                return False, ('every clique `%s[%s]` is attached, in list order, to the best of the EARLIER cliques `%s[:%s]`: the choice is not over the whole cut '
+                               'between placed and unplaced cliques, so the result need not be a maximum-weight spanning tree (the running intersection '
+                               'property fails, e.g. when a later clique would have been the better neighbour)' % (X, k, X, k)), loop
+    return None
+
+
 def check_tree_connected(ctx):
     """the clique graph handed to minimum_spanning_tree has an edge for EVERY pair of maximal cliques, weighted by minus the size of
     the intersection.  Stated on set-builder terms: `for c1, c2 in combinations(..): G.add_edge(c1, c2, weight=w)` and
@@ -722,7 +815,13 @@ def check_tree_connected(ctx):
         span = [(s_, c) for s_, c, pc_, lp in be.calls if isinstance(c.func, ast.Attribute) and c.func.attr == 'add_edges_from' and c.args
                 and any(isinstance(n, ast.Call) and U(n.func).endswith('minimum_spanning_edges') for n in ast.walk(c.args[0]))]
         if len(span) != 1:
-            raise AnalysisError('_make_tree: no minimum_spanning_tree call')
+            verdict = grown_tree(fi)
+            if verdict is None:
+                raise AnalysisError('_make_tree: no minimum_spanning_tree call')
+            ok_, why_, where_ = verdict
+            ctx.ob('tree-connected', fi, where_, ok_, 'the junction tree is a MAXIMUM-weight spanning tree of the clique graph (weights: sizes of the '
+                   'intersections); written out without networkx: %s' % why_, construct='spanning tree grown clique by clique')
+            return
         s_sp, c_sp = span[0]
         H = U(c_sp.func.value)
         trees = [n for n in ast.walk(c_sp.args[0]) if isinstance(n, ast.Call) and U(n.func).endswith('minimum_spanning_edges')]
